@@ -671,7 +671,7 @@ Theorem update_meta_after_correct g : WF g -> DepAcyclic g -> FlagInv_need g ->
 Proof.
   intros Hwf Hac HF. destruct (update_meta_after_values g Hwf Hac HF) as [vf [Hl Hv]].
   exists (write_back g vf). split.
-  - unfold update_meta_after. rewrite Hl. reflexivity.
+  - unfold update_meta_after. change after_first_round with true. rewrite Hl. reflexivity.
   - intros s Hin. rewrite write_back_mapg in *. unfold mapg in Hin. cbn [g_steps with_steps] in Hin.
     apply in_map_iff in Hin. destruct Hin as [s0 [<- Hin]]. split; [reflexivity|].
     intros Hd. rewrite need_spec_mapg by apply wb_keeps.
@@ -789,7 +789,7 @@ Proof.
   destruct (update_meta_after_correct g1 Hwf1 Hda1 HFn1) as [g2 [Hu2 H2]].
   assert (Hg2 : exists vf, g2 = mapg (wb vf) g1).
   { unfold update_meta_after in Hu2.
-    destruct (after_loop (S (length (g_steps g1))) true g1 (vals_of g1) (seed0 g1)) as [vf|]; [|discriminate].
+    destruct (after_loop _ _ _ _ _) as [vf|]; [|discriminate].
     injection Hu2 as <-. exists vf. reflexivity. }
   destruct Hg2 as [vf E2].
   set (g3 := update_meta_ready g2).
@@ -1244,6 +1244,42 @@ Proof.
 Qed.
 
 Definition the (o : option graph) (d : graph) : graph := match o with Some x => x | None => d end.
+
+(* The driver Scheduler._update_meta_after starts with `first = True` (generated: after_first_round): the first
+   UPDATE_CHECK_AFTER writes every seed and PROPAGATE_CHECK_AFTER therefore reaches the producers of every flagged step,
+   changed or not.  With `first = False` the statement of update_meta_correct is false: S (3, DEFAULT) was just
+   given the input f (edge insertion flags the sink only); its own value does not change, so nothing is
+   propagated and the OPTIONAL producer P (2) of f keeps _implied_need = OPTIONAL: eligible by definition, never
+   dispatched. *)
+Definition g_first : graph :=
+  mkGraph [wstep 1 22 34 None true 34 false false false;
+           wstep 2 21 31 (Some 1) true 31 false false false;
+           set_ready (wstep 3 21 32 (Some 1) true 32 false true false) false false]
+          [mkFile 10 [102] 15 false (Some 2) false] [mkOnode 0 false None]
+          [mkDep 2 10 false; mkDep 10 3 false] [] [] [] 31.
+
+Theorem update_meta_without_first_round_refuted :
+  exists g, WF g /\ Acyclic g /\ FlagInv g /\ HasHashInv g /\
+    exists g', update_meta_from false g = Some g' /\ ~ AllCorrect g' /\
+      exists s, In s (g_steps g') /\ eligible_spec g' s = true /\ ~ In s (dispatch_set g').
+Proof.
+  exists g_first.
+  split; [apply wf_refl; vm_compute; reflexivity|].
+  split; [split; [exists (fun k => N.to_nat (k - 1)); apply creator_rank_refl
+                 | exists (fun k => if k =? 2 then 1%nat else 0%nat); apply need_rank_refl]; vm_compute; reflexivity|].
+  split; [split; [apply flaginv_safe_refl | split; [apply flaginv_need_refl | apply flaginv_ready_refl]];
+          vm_compute; reflexivity|].
+  split; [apply has_hash_inv_refl; vm_compute; reflexivity|].
+  exists (the (update_meta_from false g_first) g_first).
+  split; [vm_compute; reflexivity|].
+  split.
+  - intros H. apply allcorrect_refl in H. vm_compute in H. discriminate.
+  - apply leaves_eligible_refl. vm_compute. reflexivity.
+Qed.
+(* with `first = True` the driver is update_meta (generated fact) *)
+Lemma update_meta_from_true g : safe_merge = MergeDeepest -> after_first_round = true ->
+  update_meta_from true g = update_meta g.
+Proof. intros _ H. unfold update_meta, update_meta_with, update_meta_from, update_meta_after_from, update_meta_after, update_meta_safe. rewrite H. reflexivity. Qed.
 
 (* For ANY resource query that subtracts the units of exactly the RUNNING steps the dispatch set is the set
    of eligible steps (AllCorrect snapshot) ... *)
